@@ -224,13 +224,19 @@ def prove(prop, thorough=False):
     mods = prop["lean_modules"]
     rc, out, err, dt = lake(["build"] + mods + (["drv_" + prop["id"]] if prop.get("driver", True) else []))
     res["build_s"] = round(dt, 1)
+    good = list(mods)
     if rc != 0:
         res["log"] = (out + err)[-6000:]
-        # which theorems still check?  build what can be built, audit below tells
+        # audit what still builds: a broken module must not mark the theorems of the others as failed
+        good = []
+        for m in mods:
+            rcm, _, _, _ = lake(["build", m])
+            if rcm == 0:
+                good.append(m)
     pid = prop["id"]
     audit = os.path.join(BUILD, "Audit_%s.lean" % pid)
     with open(audit, "w") as f:
-        for m in mods:
+        for m in good:
             f.write("import %s\n" % m)
         for t in prop["theorems"]:
             f.write("#print axioms %s\n" % t)
